@@ -377,6 +377,16 @@ def run_shard(prop: str, tier: str, seed: int, shard: int, nshards: int, out: st
             except BaseException as e:  # harness error, Hypothesis health check, Flaky ...
                 if isinstance(e, KeyboardInterrupt):
                     raise
+                if first and type(e).__name__ in ("Flaky", "FlakyFailure", "FlakyReplay"):
+                    # the check did observe a violation on this tree, but it did not recur when
+                    # Hypothesis re-executed the same case (free-running threads, e.g. n_jobs > 1)
+                    v = first[0]
+                    v.sig += ":intermittent"
+                    v.msg += " [observed once; not reproduced on re-execution of the same case: timing dependent]"
+                    path = _write_replay(prop, c.name, v)
+                    result["violations"].append({"check": c.name, "sig": v.sig, "msg": v.msg[:2000], "replay": path})
+                    ctx.frozen = False
+                    continue
                 result["errors"].append(
                     {"check": c.name, "error": "".join(traceback.format_exception(e))[-6000:]}
                 )
